@@ -18,7 +18,7 @@ static qb_loop_t *L;
 static int max_regs, max_actions, horizon, actions_left, in_raise, stop_called_iter, calls_after_stop;
 static qb_loop_timer_handle stale_th; static int have_stale;
 static int job_order[3][MAXREG], njob_order[3];
-static int sigmod_prio, only_signal_sets;
+static int sigmod_prio, only_signal_sets, reconnect;
 
 static void job_cb(void *d);
 static void timer_cb(void *d);
@@ -123,7 +123,7 @@ static void do_raise(int signo)
 /* one action chosen by the explorer at a callback: the menu holds only what is applicable right now */
 static int act(int self)
 {
-	enum { A_NONE, A_DEL_SELF, A_READD, A_NEWJOB, A_NEWTIMER, A_STALE, A_RAISE1, A_RAISE2, A_STOP, A_NEG, A_DEL_OTHER, A_TOGGLE, A_MOD, A_REPLACE, A_CLOSE_FIRST, A_SIGMOD, A_NULLH };
+	enum { A_NONE, A_DEL_SELF, A_READD, A_NEWJOB, A_NEWTIMER, A_STALE, A_RAISE1, A_RAISE2, A_STOP, A_NEG, A_DEL_OTHER, A_TOGGLE, A_MOD, A_REPLACE, A_CLOSE_FIRST, A_SIGMOD, A_NULLH, A_RECONNECT };
 	struct { int code, arg; } m[64];
 	int n = 0, i, c, ret = 0;
 	if (actions_left <= 0) return 0;
@@ -149,6 +149,8 @@ static int act(int self)
 		}
 		if (R[i].type == T_SIG && !R[i].deleted) { m[n].code = A_SIGMOD; m[n++].arg = i; }
 	}
+	/* later additions go last, so that recorded answer sequences keep their meaning */
+	if (R[self].type == T_FD && reconnect && n < 56) { m[n].code = A_RECONNECT; m[n++].arg = 0; }
 	c = vp_choose(n, "callback action");
 	if (m[c].code == A_NONE) return 0;
 	actions_left--;
@@ -173,6 +175,16 @@ static int act(int self)
 	case A_RAISE2: do_raise(SIGUSR2); break;
 	case A_STOP: qb_loop_stop(L); stop_called_iter = loop_iterations; vp_log("    qb_loop_stop"); break;
 	case A_NEG: ret = -1; break;
+	case A_RECONNECT: {
+		/* the usual "peer hung up" pattern: the callback closes its descriptor, connects again (the new descriptor gets
+		   the number back), registers that one and reports a negative value so that the old registration goes away */
+		int oldfd = R[self].fd, nid;
+		close(oldfd);
+		nid = add_fd(R[self].prio, 1);
+		vp_log("    own fd %d closed, number reused by new registration r%d: %s", oldfd, nid, R[nid].fd == oldfd ? "yes" : "no");
+		R[self].fd = -1;          /* the number now belongs to the new registration */
+		ret = -1;
+		break; }
 	case A_DEL_OTHER: del_reg(m[c].arg, 0); break;
 	default: {
 		int o = m[c].arg;
@@ -344,6 +356,7 @@ static void init(void)
 	max_regs = (int)vp_param("max_registrations", 3, 4);
 	max_actions = (int)vp_param("max_actions", 2, 3);
 	sigmod_prio = (int)vp_param("signal_mod_changes_priority", 0, 0);
+	reconnect = (int)vp_param("reconnect_in_callback", 1, 1);
 	only_signal_sets = (int)vp_param("only_signal_sets", 0, 0);
 	horizon = (int)vp_param("iterations", 14, 16);
 }
